@@ -178,6 +178,17 @@ def seeded(a, rest, seed):
                     env = dict(os.environ, VERIF_SEED=str(seed))
                     p = subprocess.run([os.path.join(VERIF, "check"), pid, "--tier", "quick", "--repo", root, "--no-evidence"],
                                        env=env, capture_output=True, text=True, timeout=1800)
+                    if kind == "benign" and "--cross" in rest and p.returncode == 0:
+                        # a refactoring made for one property must not upset the checks of the others either
+                        for other in PROPS:
+                            if other == pid:
+                                continue
+                            q = subprocess.run([os.path.join(VERIF, "check"), other, "--tier", "quick", "--repo", root, "--no-evidence",
+                                                "--runs", "120" if other == "C18" else "400"], env=env, capture_output=True, text=True, timeout=1800)
+                            if q.returncode != 0:
+                                entry["cross_alarm"] = other
+                                p = q
+                                break
                     vio = [l for l in p.stdout.splitlines() if l.startswith("VIOLATION ")]
                     detail = [l for l in p.stdout.splitlines() if l.startswith("violation ")]
                     harness = [l for l in p.stdout.splitlines() if l.startswith("HARNESS-ERROR")]
@@ -204,8 +215,8 @@ def seeded(a, rest, seed):
            "seeded_total": sum(1 for r in results if r["kind"] == "seeded"),
            "benign_quiet": sum(1 for r in results if r["kind"] == "benign" and r.get("ok")),
            "benign_total": sum(1 for r in results if r["kind"] == "benign"), "wall_s": round(time.time() - t0, 1), "repo": runner.repo_identity(a.repo)}
-    if not only:
-        with open(os.path.join(VERIF, "selftest", "seeded.json"), "w") as fh:
+    if not only or only == ["benign"]:
+        with open(os.path.join(VERIF, "selftest", "seeded.json" if not only else "benign_cross.json"), "w") as fh:
             json.dump(rep, fh, indent=1, sort_keys=True)
     print("seeded changes detected: %d / %d   benign refactorings quiet: %d / %d" % (rep["seeded_detected"], rep["seeded_total"], rep["benign_quiet"], rep["benign_total"]))
     return 0 if all(r.get("ok") for r in results) else 1
